@@ -102,6 +102,9 @@ class IoPart(Part):
                     stops = [c for c in steps[i][3] if 10 <= c < 40]
                     if errs and stops and stops[0] in (15, 20) and stops[0] != {2: 20, 3: 15}[errs[0]]:
                         return "0,7,%d" % i
+                    if errs and not stops:
+                        # a handler failed: the connection must end (one Stop) without waiting for another event
+                        return "0,8,%d" % i
                     break
                 if op in ([3], [6], [7]):
                     want = 30
@@ -176,6 +179,8 @@ CLAUSES = {
     "4": "a handler was still alive after the connection task completed",
     "5": "the Stop reason does not match the cause that ended the connection",
     "7": "several handlers failed: the Stop reason is not the error of the first one",
+    "8": "a handler failed but no Stop notification was delivered (the connection stays up until an unrelated "
+         "event wakes the dispatcher)",
     "6": "the Stop notification was handled and the service shutdown could complete, but the connection task "
          "did not complete",
 }
